@@ -14,11 +14,20 @@ pub struct Call {
     /// destination / source start address modulo 16
     pub dalign: u8,
     pub salign: u8,
+    /// mixed-method runs: 0 = without replacement, 1 = with replacement, 2 = the run's own mode
+    pub method: u8,
 }
 
 impl Call {
     pub fn new(src: &[u8], cap: usize, last: bool) -> Call {
-        Call { src: src.to_vec(), cap, last, fill: 0xA5, dalign: 0, salign: 0 }
+        Call { src: src.to_vec(), cap, last, fill: 0xA5, dalign: 0, salign: 0, method: 2 }
+    }
+    pub fn repl(&self, default: bool) -> bool {
+        match self.method {
+            0 => false,
+            1 => true,
+            _ => default,
+        }
     }
     pub fn to_json(&self) -> crate::json::J {
         use crate::json::J;
@@ -29,6 +38,7 @@ impl Call {
             .set("fill", J::i(self.fill as usize))
             .set("dalign", J::i(self.dalign as usize))
             .set("salign", J::i(self.salign as usize))
+            .set("method", J::i(self.method as usize))
     }
     pub fn from_json(j: &crate::json::J) -> Call {
         Call {
@@ -38,6 +48,7 @@ impl Call {
             fill: j.get("fill").unwrap().as_i64().unwrap() as u8,
             dalign: j.get("dalign").unwrap().as_i64().unwrap() as u8,
             salign: j.get("salign").unwrap().as_i64().unwrap() as u8,
+            method: j.get("method").and_then(|x| x.as_i64()).unwrap_or(2) as u8,
         }
     }
 }
@@ -85,7 +96,7 @@ pub fn run_decoder_calls(e: &Enc, bom: BomMode, sink: Sink, repl: bool, calls: &
     for (i, c) in calls.iter().enumerate() {
         let fill = if sink == Sink::Str { c.fill & 0x7F } else { c.fill };
         let d = Dst { cap: c.cap, fill, align: c.dalign as usize, prior: None };
-        let o = match with_aligned_src(&c.src, c.salign as usize, |s| call_decoder(&mut dec, sink, repl, s, c.last, &d)) {
+        let o = match with_aligned_src(&c.src, c.salign as usize, |s| call_decoder(&mut dec, sink, c.repl(repl), s, c.last, &d)) {
             Ok(o) => o,
             Err(m) => {
                 run.panic = Some((i, m));
